@@ -184,4 +184,38 @@ func TestVerifC01GRPCCodesTable(t *testing.T) {
 		}
 	}
 	m.Case("mixed-benign", true)
+
+	// ---- sustained mix of benign and failing codes below the trip threshold: nothing may be
+	// rejected while the outcomes seen satisfy total-5 <= 1.5*accepts (frozen clock)
+	for _, share := range []int{10, 30} {
+		mb := breaker.New()
+		n := vk.N(3000, 30000)
+		var acc, tot int64
+		okRow := true
+		failingCodes := []gcodes.Code{gcodes.DeadlineExceeded, gcodes.Internal, gcodes.Unavailable, gcodes.DataLoss, gcodes.Unimplemented}
+		for k := 0; k < n; k++ {
+			bad := r.Intn(100) < share
+			c := benign[r.Intn(len(benign))]
+			if bad {
+				c = failingCodes[r.Intn(len(failingCodes))]
+			}
+			must := 2*(tot-5) <= 3*acc
+			ran := false
+			err := mb.DoWithAcceptable(func() error { ran = true; return c01CodeErr(c, k) }, Acceptable)
+			m.Count("calls_mixed_success_failure", 1)
+			if !ran {
+				if must {
+					m.Violate("C01:mixed:grpc-codes:rejected-below-threshold", fmt.Sprintf("case=%d;%d%% failing codes among benign ones", 200+share, share), "call #%d (%s) was rejected (%v) although the %d admitted calls so far were %d benign and %d failing, i.e. total-5 <= 1.5*successes", k, c, err, tot, acc, tot-acc)
+					okRow = false
+					break
+				}
+				continue
+			}
+			tot++
+			if !bad {
+				acc++
+			}
+		}
+		m.Case(fmt.Sprint("mixed-success-failure", share, okRow), okRow && tot > acc)
+	}
 }
